@@ -8,7 +8,11 @@ from .lexer import lex, squash
 
 
 # N10 (every unit): a fully qualified path into a stubbed dependency names the prelude's stand-in of the same item
-DEFAULT_RULES = [('N10', r'\bhibitset::(?=[A-Z])', ''), ('N10', r'\bshrev::(?=[A-Z])', '')]
+DEFAULT_RULES = [('N10', r'\bhibitset::(?=[A-Z])', ''), ('N10', r'\bshrev::(?=[A-Z])', ''),
+                 # N17b: `let &(a, b, c) = v;` (irrefutable reference pattern over a tuple of Copy fields, v a local) -> field copies
+                 ('N17', r'let &\((\w+), (\w+)\) = (\w+);', r'let \1 = \3.0; let \2 = \3.1;'),
+                 ('N17', r'let &\((\w+), (\w+), (\w+)\) = (\w+);', r'let \1 = \4.0; let \2 = \4.1; let \3 = \4.2;'),
+                 ('N17', r'let &\((\w+), (\w+), (\w+), (\w+)\) = (\w+);', r'let \1 = \5.0; let \2 = \5.1; let \3 = \5.2; let \4 = \5.3;')]
 
 
 class Clause:
